@@ -98,6 +98,13 @@ def encWithNonce (n : Nat) (m : Int) (nonce : Nat) : Except String Nat :=
     let nsq := n * n
     .ok (expI (n + 1) m nsq * powMod nonce n nsq % nsq)
 
+/-- `new(saferith.Int).SetModSymmetric(z.Mod(N), N)`: the representative of `z mod N` in `[-(N-1)/2, (N-1)/2]`
+    (`r = z mod N`; when `N - r < r` the result is `-(N - r)`) -/
+def symMod (z : Int) (n : Nat) : Int :=
+  let r := intMod z n
+  let neg := (n - r) % n
+  if neg < r then -(neg : Int) else (r : Int)
+
 /-- `PublicKey.ValidateCiphertexts` for one ciphertext: in `[1, N²-1]` and coprime to `N²` -/
 def validateCiphertext (n : Nat) (c : Option Nat) : Bool :=
   match c with
